@@ -307,6 +307,9 @@ def outcomeP : P Outcome := do
   atEnd
   pure o
 
+/-- the harness's watchdog fired: the request never returned -/
+def isHang (impl : List String) : Bool := impl == ["hang"]
+
 /-- reload mode: the distinct outcomes observed for one query line -/
 def outcomesP : P (List Outcome) := do
   let l ← listOf outcomeP1
